@@ -189,3 +189,19 @@ func VerifAdapterState(n *Namespace) map[string][]string {
 
 // VerifEIOSessionIDs lists the live Engine.IO session ids of the server (no locking).
 func (s *Server) VerifEIOSessionIDs() []string { return s.eio.VerifSessionIDs() }
+
+// ---- back-off (C15)
+
+type VerifBackoff struct{ b *backoff }
+
+func VerifNewBackoff(min, max time.Duration, jitter float32) VerifBackoff {
+	return VerifBackoff{newBackoff(min, max, jitter)}
+}
+func (v VerifBackoff) Duration() time.Duration { return v.b.duration() }
+func (v VerifBackoff) Attempts() uint32        { return v.b.attempts() }
+func (v VerifBackoff) SetAttempts(n uint32)    { v.b.numAttempts = n }
+func (v VerifBackoff) Reset()                  { v.b.reset() }
+
+// VerifAbruptClose closes the Engine.IO connection under a server socket without any Socket.IO
+// farewell (what the repo's own reconnection tests do with s.conn.eio.Close()).
+func VerifAbruptClose(s ServerSocket) { s.(*serverSocket).conn.eio.Close() }
